@@ -202,6 +202,21 @@ def handle (j : Json) : Except String Json := do
   | "get_bit_value" => do
     let a ← nats (← j.getObjVal? "args")
     pure (ok (jB (FRep.getBitValue (a.getD 0 0) (a.getD 1 0) (a.getD 2 0))))
+  | "define" => do
+    -- rows: strings over 0/1/* (one per output); defn: [[bits, output_index, value], …] in dict order
+    let rows ← strs (← j.getObjVal? "rows")
+    let defn ← (← j.getObjVal? "defn").getArr?
+    let model : List (List (Option Bool)) := rows.map (fun r => r.toList.map (fun ch =>
+      if ch == '*' then none else some (ch == '1')))
+    let items ← defn.toList.mapM (fun (d : Json) => do
+      let a ← d.getArr?
+      let bits ← a[0]!.getStr?
+      let o ← a[1]!.getNat?
+      let v ← a[2]!.getBool?
+      pure ((parseBits bits, o), v))
+    let res := FRep.defineTable model items
+    pure (ok (Json.arr (res.map (fun r => Json.str (String.ofList (r.map (fun v =>
+      match v with | none => '*' | some true => '1' | some false => '0'))))).toArray))
   | "from_int" => do
     -- values: table of the integer function (unary: f(i) = values[i]; binary: f(i,j) = values[i*2^len+j])
     let vals ← nats (← j.getObjVal? "values")
